@@ -833,3 +833,96 @@ pub fn replay_line(t: &[u64]) -> String {
         None => "pk 0".to_string(),
     }
 }
+
+// ---------------------------------------------------------------- C04: arbitrary bytes into the parsers
+fn mutate_bytes(rng: &mut Rng, mut b: Vec<u8>) -> Vec<u8> {
+    let n = 1 + rng.below(3);
+    for _ in 0..n {
+        match rng.below(9) {
+            0 => if !b.is_empty() { let i = rng.below(b.len() as u64) as usize; b[i] ^= 1 << rng.below(8) },
+            1 => if !b.is_empty() { let k = rng.below(b.len() as u64) as usize; b.truncate(k) },
+            2 => { let i = rng.below(b.len() as u64 + 1) as usize; b.insert(i, *rng.pick(&[0x00u8, 0x80, 0xff])) }
+            3 => if !b.is_empty() { let i = rng.below(b.len() as u64) as usize; b.remove(i); }
+            4 => if !b.is_empty() { let i = rng.below(b.len() as u64) as usize; b[i] = *rng.pick(&[0u8, 1, 2, 3, 0x7f, 0x80, 0xfe, 0xff]) },
+            5 => if !b.is_empty() { let i = rng.below(b.len() as u64) as usize; b[i] = b[i].wrapping_add(1) },
+            6 => if !b.is_empty() { let i = rng.below(b.len() as u64) as usize; b[i] = b[i].wrapping_sub(1) },
+            7 => {
+                // a non-minimal Variable Byte Integer in place of a small byte
+                if !b.is_empty() { let i = rng.below(b.len() as u64) as usize; if b[i] < 0x80 { let v = b[i]; b[i] = v | 0x80; b.insert(i + 1, 0x00) } }
+            }
+            _ => { let k = rng.below(4); for _ in 0..k { b.push(rng.below(256) as u8) } }
+        }
+    }
+    b
+}
+
+/// one parser case.  Line: pkm ver idw fh n body.. then 2 (panic) | 0 err | 1 consumed size reser_len reparse_eq <abstract tokens of the accessors> ; reser bytes
+pub fn parse_case(ver: u64, fh: u8, body: &[u8], st: &mut PkStats) -> String {
+    let mut o: Vec<u64> = vec![ver, IDW, fh as u64];
+    push_bytes(&mut o, body);
+    let r = catch_unwind(AssertUnwindSafe(|| {
+        match parse_body(ver, fh, body) {
+            Err(e) => (0u64, e as u64, Vec::new()),
+            Ok((p, consumed)) => {
+                let reser = p.to_continuous_buffer();
+                let size = p.size();
+                let re = match parse_whole(ver, &reser) { Some(Ok((q, _))) => q == p, _ => false };
+                let (av, ab) = accessors(&p);
+                let mut t: Vec<u64> = vec![consumed as u64, size as u64, re as u64];
+                tokens(av, &ab, &mut t);
+                push_bytes(&mut t, &reser);
+                (1u64, 0, t)
+            }
+        }
+    }));
+    match r {
+        Err(_) => { st.panics += 1; o.push(2) }
+        Ok((0, e, _)) => { st.parse_err += 1; o.push(0); o.push(e) }
+        Ok((_, _, t)) => { st.parse_ok += 1; o.push(1); o.extend_from_slice(&t) }
+    }
+    let mut s = String::with_capacity(o.len() * 4 + 4);
+    s.push_str("pkm");
+    for x in &o { s.push(' '); s.push_str(&x.to_string()) }
+    s
+}
+
+pub fn gen_parse_cases(rng: &mut Rng, n: usize, out: &mut Vec<String>, st: &mut PkStats) {
+    for _ in 0..n {
+        let ver = if rng.chance(1, 3) { 4 } else { 5 };
+        let ty = if ver == 5 { rng.range(1, 15) } else { rng.range(1, 14) };
+        let mode = rng.below(10);
+        if mode == 0 {
+            // uniformly random body
+            let k = rng.below(12);
+            let body: Vec<u8> = (0..k).map(|_| rng.below(256) as u8).collect();
+            let fh = ((ty as u8) << 4) | (rng.below(16) as u8);
+            out.push(parse_case(ver, fh, &body, st));
+            continue;
+        }
+        let b = gen_body(rng, ver, ty, false);
+        let p = match build(ver, &b) { Some(p) => p, None => continue };
+        let bytes = p.to_continuous_buffer();
+        if bytes.len() > 400 { continue }
+        let mut i = 1;
+        while i < bytes.len() && bytes[i] & 0x80 != 0 { i += 1 }
+        let body = bytes[i + 1..].to_vec();
+        let fh = if rng.chance(1, 10) { bytes[0] ^ (1 << rng.below(4)) } else { bytes[0] };
+        let body = if mode == 1 { body } else { mutate_bytes(rng, body) };
+        out.push(parse_case(ver, fh, &body, st));
+    }
+}
+
+/// every body of length <= maxlen for every parser (exhaustive)
+pub fn enum_parse_cases(maxlen: usize, out: &mut Vec<String>, st: &mut PkStats) {
+    for ver in [4u64, 5] {
+        for ty in 1..=(if ver == 5 { 15u8 } else { 14 }) {
+            let flags: Vec<u8> = if ty == 3 { vec![0, 2, 4, 6, 9, 11] } else { vec![if ty == 6 || ty == 8 || ty == 10 { 2 } else { 0 }] };
+            for fl in flags {
+                let fh = (ty << 4) | fl;
+                out.push(parse_case(ver, fh, &[], st));
+                if maxlen >= 1 { for a in 0..=255u8 { out.push(parse_case(ver, fh, &[a], st)) } }
+                if maxlen >= 2 { for a in 0..=255u8 { for b in 0..=255u8 { out.push(parse_case(ver, fh, &[a, b], st)) } } }
+            }
+        }
+    }
+}
